@@ -28,7 +28,7 @@ TReset == /\ Is("reset")
           /\ pcs' = [t \in Threads |-> "idle"] /\ op' = [t \in Threads |-> "none"] /\ ncalls' = [t \in Threads |-> 0]
           /\ mutex' = 0 /\ closed' = FALSE /\ done' = FALSE /\ out' = 0
           /\ res' = [t \in Threads |-> <<>>] /\ closeCalled' = FALSE /\ closeReturned' = FALSE
-          /\ startedAfterClose' = [t \in Threads |-> FALSE]
+          /\ startedAfterClose' = [t \in Threads |-> FALSE] /\ cancelled' = [t \in Threads |-> FALSE]
           /\ wpc' = (IF Watcher THEN "loop" ELSE "none") /\ msgs' = 0 /\ published' = 0 /\ restarts' = 0
           /\ subCancelled' = FALSE /\ watchCancelled' = FALSE /\ watchDone' = FALSE
 
@@ -54,6 +54,7 @@ TWatcher == \/ Is("w.next") /\ (WLoop \/ (WSel /\ wpc' = "next"))
             \/ Is("h.send") /\ T = 0 /\ WSend
             \/ Is("w.exit") /\ (WNextExit \/ WClosedExit \/ (WSel /\ wpc' = "done"))
 TPublish == Is("env.publish") /\ Publish
+TCancel == Is("env.cancel") /\ Cancel(T)
 (* end of a run: a Close has been called, so every call has returned and the watcher has exited *)
 TFinal == /\ Is("final") /\ closeCalled
           /\ \A t \in Threads : pcs[t] = "idle"
@@ -61,7 +62,7 @@ TFinal == /\ Is("final") /\ closeCalled
           /\ mutex = 0
           /\ UNCHANGED vars
 
-TNext == TReset \/ TStart \/ TLocked \/ TClose \/ TDirect \/ TUncache \/ TRet \/ TWatcher \/ TPublish \/ TFinal
+TNext == TReset \/ TStart \/ TLocked \/ TClose \/ TDirect \/ TUncache \/ TRet \/ TWatcher \/ TPublish \/ TCancel \/ TFinal
 TSpec == TInit /\ [][TNext]_tvars
 
 (* the replay branches where the code's next step depends on data (duplicate or not, allowed peer or not): the
